@@ -161,6 +161,12 @@ func xSubst(body *xNode, args []*xNode) *xNode {
 	return xClone(body)
 }
 
+// xEmptyCtx is the all-empty context (what the optimiser's probe sees).
+type xEmptyCtx struct{}
+
+func (xEmptyCtx) GetMatch(int) string  { return "" }
+func (xEmptyCtx) GetKey(string) string { return "" }
+
 type xEval struct {
 	kb  *expressions.CompiledKeyBuilder
 	err string
@@ -190,7 +196,37 @@ func xBuild(kb *expressions.CompiledKeyBuilder, ctx expressions.KeyBuilderContex
 	return kb.BuildKey(ctx), false
 }
 
-const c10Pattern = `^(?P<verb>[A-Z]+) (?P<code>\d+)(?: (?P<path>\S+))?`
+const c10Pattern = `^(?P<verb>\S+) (?P<code>\d+)(?: (?P<path>\S+))?`
+
+// shapes of the range family: %A is replaced by an array-valued expression, %S by a scalar sub-expression
+var c10RangeShapes = []string{
+	`{@join {@map %A "%S"} ,}`,
+	`{@map %A "%S"}`,
+	`{@filter %A "%S"}`,
+	`{@reduce %A "{sumi {0} {1}}" 0}`,
+	`{@reduce %A "{maxi {0} {1}}"}`,
+	`{@len {@filter %A "%S"}}`,
+	`{@join {@map {@map %A "%S"} "%S"} -}`,
+	`{@select {@map %A "%S"} 1}`,
+	`{@slice {@map %A "%S"} 1 2}`,
+	`{@in {code} {@map %A "%S"}}`,
+	`{@join {@for 0 {lt {0} 4} {sumi {0} 1}} {@len %A}}`,
+	`k:{@map %A "%S"}:{@filter %A "%S"}`,
+}
+var c10Arrays = []string{`{@split {0} " "}`, `{@ {1} {2} {3}}`, `{@range 1 5}`, `{@split {path} /}`, `{@ {verb} {code}}`, `{$ {2} 7 {line}}`, `{@split {0}}`}
+var c10Subs = []string{`{upper {0}}`, `{len {0}}`, `{sumi {0} {code}}`, `{isnum {0}}`, `{prefix {0} G}`, `{0}{verb}`, `{multi {0} 2}`, `{eq {0} {1}}`, `{substr {0} 0 2}`, `{if {isint {0}} {sumi {0} 1} x}`, `{src}:{0}`}
+
+// shapes of the time-parsing family: %D is a date-valued expression
+var c10TimeShapes = []string{
+	`{time %D}`,
+	`{timeformat {time %D} 2006-01-02}`,
+	`{buckettime %D day}`,
+	`{timeattr {time %D} weekday}`,
+	`{time %D "" utc}`,
+	`{sumi {time %D} 1}`,
+}
+var c10DateExprs = []string{`{1}`, `{verb}`, `{coalesce {1} %C}`, `{coalesce {9} {1}}`, `{if {2} {1} %C}`, `{coalesce {path} %C}`}
+var c10DateConsts = []string{`01/02/2006`, `2006-01-02`, `"Jan 2 2006"`, `2006-01-02T15:04:05Z`, `02/01/2006`}
 
 func init() {
 	worlds["C10"] = func(rc *RunCtx) {
@@ -206,13 +242,38 @@ func init() {
 			}
 		}
 		sort.Strings(fns)
-		family := []string{"builtin", "builtin", "funcs", "time"}[t.W(4)]
+		family := []string{"builtin", "builtin", "funcs", "funcs", "time", "range", "timeparse", "timefuncs"}[t.W(8)]
 		sc := genPipeScenario(rc, true, 30)
 		sc.MatcherKind, sc.Pattern = 1, c10Pattern
 		sc.Ignores = nil
 		sc.Workers = t.WRange(1, 4)
+		if family == "range" && sc.Workers == 1 {
+			sc.Workers = 2 + t.W(3) // the pooled sub-expression contexts are the subject: share them
+		}
+		if family == "timeparse" {
+			// date tokens of ONE layout per run (the helper caches the first layout it detects, by design)
+			iso := t.WBool(1, 2)
+			verb := regexp.MustCompile(`(?m)^[A-Z]+ `)
+			digits := regexp.MustCompile(`(?m)^(\d)`)
+			for i := range sc.Inputs {
+				// no other first token may look like a date or timestamp to the layout detector
+				sc.Inputs[i].Data = digits.ReplaceAll(sc.Inputs[i].Data, []byte("n$1"))
+				sc.Inputs[i].Data = verb.ReplaceAllFunc(sc.Inputs[i].Data, func(m []byte) []byte {
+					if t.W(3) == 0 {
+						return m
+					}
+					if iso {
+						return []byte(fmt.Sprintf("2021-%02d-%02d ", 1+t.W(12), 1+t.W(28)))
+					}
+					return []byte(fmt.Sprintf("2021-%02d-%02dT%02d:04:05Z ", 1+t.W(12), 1+t.W(28), t.W(24)))
+				})
+				if sc.Inputs[i].Plan != nil && sc.Inputs[i].Plan.ErrAt > int64(len(sc.Inputs[i].Data)) {
+					sc.Inputs[i].Plan.ErrAt = int64(len(sc.Inputs[i].Data))
+				}
+			}
+		}
 		// ---- draw a usable template ----
-		var tpl, refTpl, funcsText string
+		var tpl, refTpl, funcsText, dateProbe string
 		attempts := 0
 		re := regexp.MustCompile(c10Pattern)
 		names := map[string]int{}
@@ -319,6 +380,38 @@ func init() {
 					continue // a body that does not compile (arity): not this world's subject
 				}
 				funclib.AddFunctions(loaded)
+			case "range":
+				shape := c10RangeShapes[t.W(len(c10RangeShapes))]
+				for strings.Contains(shape, "%A") {
+					shape = strings.Replace(shape, "%A", c10Arrays[t.W(len(c10Arrays))], 1)
+				}
+				for strings.Contains(shape, "%S") {
+					shape = strings.Replace(shape, "%S", c10Subs[t.W(len(c10Subs))], 1)
+				}
+				tpl, refTpl = shape, shape
+			case "timeparse":
+				shape := c10TimeShapes[t.W(len(c10TimeShapes))]
+				d := c10DateExprs[t.W(len(c10DateExprs))]
+				d = strings.Replace(d, "%C", c10DateConsts[t.W(len(c10DateConsts))], 1)
+				tpl = strings.Replace(shape, "%D", d, 1)
+				refTpl = tpl
+				// what the date expression evaluates to when every group and key is empty
+				dateProbe = ""
+				if pe := xCompile(funclib.NewKeyBuilderEx(false), d); pe.err == "" {
+					dateProbe, _ = xBuild(pe.kb, xEmptyCtx{})
+				}
+			case "timefuncs":
+				kind := []string{"live", "delta"}[t.W(2)]
+				body := []string{"{time " + kind + "}", "t={time " + kind + "}", "{sumi {time " + kind + "} {0}}"}[t.W(3)]
+				funcsText = "# clock helpers\nuf1 " + body + "\n"
+				if t.WBool(1, 2) {
+					funcsText += "uf2 {uf1 {0}}\n"
+					tpl = "{uf2 0}"
+				} else {
+					tpl = "{uf1 0}"
+				}
+				refTpl = ""
+				// loaded inside the bubble (below), so that load time and evaluation time are on the same clock
 			case "time":
 				kind := []string{"live", "delta", "now"}[t.W(3)]
 				switch t.W(3) {
@@ -331,7 +424,7 @@ func init() {
 				}
 				refTpl = ""
 			}
-			if family == "time" {
+			if family == "time" || family == "timefuncs" {
 				usable = true
 				break
 			}
@@ -381,7 +474,7 @@ func init() {
 		rc.Sample = desc
 		rc.Probes["family-"+family]++
 
-		if family == "time" {
+		if family == "time" || family == "timefuncs" {
 			sc.ScanBuf = 0 // seconds of latency per read: keep the number of reads small
 			// whole seconds pass between reads
 			for i := range sc.Inputs {
@@ -393,7 +486,16 @@ func init() {
 		}
 		// consumption instants per match
 		t0 := time.Time{}
-		out := runPipeHook(rc, sc, simrt.Opts{MaxSteps: 150000, IdleLimit: time.Hour, FreeLimit: 24 * time.Hour}, func() { t0 = time.Now() })
+		out := runPipeHook(rc, sc, simrt.Opts{MaxSteps: 150000, IdleLimit: time.Hour, FreeLimit: 24 * time.Hour}, func() {
+			t0 = time.Now()
+			if family == "timefuncs" {
+				loaded, lerr := funcfile.LoadDefinitions(funclib.NewKeyBuilder(), strings.NewReader(funcsText), "gen.funcs")
+				if lerr != nil {
+					panic(lerr)
+				}
+				funclib.AddFunctions(loaded)
+			}
+		})
 		for k := range funclib.Additional {
 			delete(funclib.Additional, k)
 		}
@@ -416,7 +518,7 @@ func init() {
 		for _, m := range out.Matches {
 			got[fmt.Sprintf("%s\x00%d", m.Source, m.LineNumber)] = m.Extracted
 		}
-		if family != "time" {
+		if family != "time" && family != "timefuncs" {
 			bad := 0
 			for _, lc := range ctxs {
 				want, _ := xBuild(refKB, lc.ctx)
@@ -428,10 +530,19 @@ func init() {
 					bad++
 					if bad <= 2 {
 						cl := "optimised-differs"
-						if family == "funcs" {
+						switch family {
+						case "funcs":
 							cl = "funcs-file-differs"
+						case "range":
+							cl = "range-helpers-differ"
+						case "timeparse":
+							cl = "time-parse-differs"
 						}
-						rc.Violate(cl, "template %q on %s line %d %q: the pipeline (optimised, %d workers) produced %q, the sequential un-optimised evaluation of %q gives %q\nfuncs file:\n%s\nscenario: %v",
+						tag := ""
+						if family == "timeparse" && dateProbe != "" {
+							tag = fmt.Sprintf("[date expression yields the constant %q on the all-empty context the optimiser probes with] ", dateProbe)
+						}
+						rc.Violate(cl, tag+"template %q on %s line %d %q: the pipeline (optimised, %d workers) produced %q, the sequential un-optimised evaluation of %q gives %q\nfuncs file:\n%s\nscenario: %v",
 							tpl, lc.src, lc.no, clip(lc.ctx.line, 80), sc.Workers, g, refTpl, want, funcsText, desc)
 					}
 				}
@@ -462,19 +573,19 @@ func init() {
 			lo, hi := t0.Add(readAt).Unix(), t0.Add(cons).Unix()
 			base := t0.Unix()
 			switch {
-			case strings.Contains(tpl, "now"):
+			case strings.Contains(tpl+funcsText, "now"):
 				if v != base {
 					rc.Violate("time-now", "template %q: line %s:%d gives %d, the compile instant is %d\nscenario: %v", tpl, m.Source, m.LineNumber, v, base, desc)
 					return
 				}
-			case strings.Contains(tpl, "live"):
+			case strings.Contains(tpl+funcsText, "live"):
 				if v < lo || v > hi {
-					rc.Violate("time-live-frozen-or-wrong", "template %q: line %s:%d (read at fake +%v, consumed at +%v) gives %d, outside [%d, %d]\nscenario: %v", tpl, m.Source, m.LineNumber, readAt, cons, v, lo, hi, desc)
+					rc.Violate("time-live-frozen-or-wrong", "[%s] template %q: line %s:%d (read at fake +%v, consumed at +%v) gives %d, outside [%d, %d]\nfuncs file:\n%s\nscenario: %v", family, tpl, m.Source, m.LineNumber, readAt, cons, v, lo, hi, funcsText, desc)
 					return
 				}
-			case strings.Contains(tpl, "delta"):
+			case strings.Contains(tpl+funcsText, "delta"):
 				if v < lo-base || v > hi-base {
-					rc.Violate("time-delta-frozen-or-wrong", "template %q: line %s:%d (read at fake +%v, consumed at +%v) gives %d, outside [%d, %d]\nscenario: %v", tpl, m.Source, m.LineNumber, readAt, cons, v, lo-base, hi-base, desc)
+					rc.Violate("time-delta-frozen-or-wrong", "[%s] template %q: line %s:%d (read at fake +%v, consumed at +%v) gives %d, outside [%d, %d]\nfuncs file:\n%s\nscenario: %v", family, tpl, m.Source, m.LineNumber, readAt, cons, v, lo-base, hi-base, funcsText, desc)
 					return
 				}
 			}
